@@ -387,13 +387,16 @@ package rapid
 //@ event ResetHandled = call rapid.handleReset
 //@ event FlowsCancelledForReset = call core.(RegistrationService).CancelFlows when a1 == errResetReceived
 //@ func (*rapidContext).HandleReset
+//@   ensures [at-most-one-runtime-done-per-invocation] old(rtDoneBooked(r)) ==> rtDoneBooked(r)
 //@   ensures [cancel-then-wait-for-the-running-handler-then-reset] delta(FlowsCancelledForReset) == 1 && delta(ResetHandled) == 1 && first(FlowsCancelledForReset) < first(ResetHandled) && lastarg(ResetHandled, 0) == r && lastarg(ResetHandled, 1) == reset
 
 // C15 "at most one runtime-done after the start of an invocation" spans calls (the invocation and the reset that ends it):
-// since(E, S) counts the occurrences of E after the last S, whatever the history before this call was.
+// since(E, S) counts the occurrences of E after the last S, whatever the history before this call was. The bookkeeping
+// invariant rtDoneBooked holds when the process starts (no event yet), is established by every invoke start and is
+// preserved by the reset (stated as preservation, so that callers need not carry it).
 //@ func handleReset
-//@   requires execCtx != nil && rtDoneBooked(execCtx)
-//@   ensures [at-most-one-runtime-done-per-invocation] rtDoneBooked(execCtx)
+//@   requires execCtx != nil
+//@   ensures [at-most-one-runtime-done-per-invocation] old(rtDoneBooked(execCtx)) ==> rtDoneBooked(execCtx)
 //@   ensures [full-teardown-with-the-request's-deadline-and-reason] delta(FullShutdown) == 1 && lastarg(FullShutdown, 1) == execCtx && lastarg(FullShutdown, 2) == resetEvent.DeadlineNs && lastarg(FullShutdown, 3) == resetEvent.Reason
 //@   ensures [new-generation-after-the-teardown] execCtx.runtimeDomainGeneration == (old(execCtx.runtimeDomainGeneration) + 1) % 4294967296
 //@   ensures [runtime-done-only-for-timeout-or-failure] delta(EvInvokeRuntimeDone) == ite((resetEvent.Reason == "failure" || resetEvent.Reason == "timeout") && !old(execCtx.invokeRuntimeDoneSent), 1, 0) && delta(EvInvokeRuntimeDoneSuccess) == 0 && (delta(EvInvokeRuntimeDone) == 1 ==> first(EvInvokeRuntimeDone) < first(FullShutdown) && lastarg(EvInvokeRuntimeDone, 1).Status == ite(resetEvent.Reason == "timeout", "timeout", lastarg(EvInvokeRuntimeDone, 1).Status))
